@@ -87,6 +87,109 @@ def _job(args):
         return ('harness-error', '%s: %s' % (type(e).__name__, e))
 
 
+CHAIN = """A cell is identified by an id.
+
+The following propositions always apply:
+A cell goes from 0 to %d.
+
+The following propositions apply in the initial state:
+Cell 0 is marked.
+
+The following propositions always apply except in the initial state:
+Cell X is marked when cell Y is previously marked, where X is equal to Y+1.
+
+The following propositions apply in the final state:
+It is required that cell %d is marked.
+"""
+
+
+def _tjob(text):
+    """telingo trace of a temporal specification, its explanation, and the sentence of every target atom on its own"""
+    import re
+    from cnl2asp.cnl2asp import Cnl2asp
+    from cnl2asp.ASP_elements.solver.telingo_wrapper import Telingo
+    from cnl2asp.ASP_elements.solver.telingo_result_parser import TelingoResultParser
+    out = io.StringIO()
+    import os
+    os.dup2(os.open(os.devnull, os.O_WRONLY), 1)      # the solver's own status lines (written below Python) are not part of the result
+    try:
+        with contextlib.redirect_stdout(out):
+            r = impl.compile_text(text)
+            if r[0] != 'ok' or '#program' not in r[1]:
+                return None
+            t = Telingo()
+            t.load(r[1])
+            res = t.solve(time_limit=60)
+            states = []
+            for line in res.split('\n'):
+                m = re.match(r'^\s*State (\d+):\s*$', line)
+                if m:
+                    states.append((int(m.group(1)), []))
+                elif states and line.strip() and not re.match(r'^(SATISFIABLE|UNSATISFIABLE|UNKNOWN|OPTIMUM FOUND|Answer: \d+)\s*$', line.strip()):
+                    states[-1][1].extend(x for x in line.split(' ') if x)
+            if not states:
+                return ('no-trace', r[1], res[-300:])
+            rp = TelingoResultParser(Cnl2asp(text).parse_input())
+            expl = rp.parse_model(res)
+            rp1 = ClingoResultParserFresh(text)
+            per = {}
+            for _, atoms in states:
+                for a in atoms:
+                    sym = clingo.parse_term(a)
+                    if sym.name in rp1.target_predicates and a not in per:
+                        per[a] = rp1._clingo_symbol_to_sentence(sym)
+        return ('ok', r[1], states, expl, per, sorted(rp1.target_predicates))
+    except Exception as e:  # noqa
+        return ('harness-error', '%s: %s' % (type(e).__name__, e))
+
+
+def ClingoResultParserFresh(text):
+    from cnl2asp.cnl2asp import Cnl2asp
+    from cnl2asp.ASP_elements.solver.clingo_result_parser import ClingoResultParser
+    rp = ClingoResultParser(Cnl2asp(text).parse_input())
+    rp._get_new_knowledge()
+    return rp
+
+
+def traces(rep, tier):
+    """every state of a telingo trace is explained under its own heading, with one sentence per atom of a defined concept of that state"""
+    import corpus
+    texts = [CHAIN % (11, 11), CHAIN % (3, 3), CHAIN % (21, 21) if tier == 'thorough' else CHAIN % (10, 10)]
+    texts += [t for n, t in corpus.load() if 'The following propositions' in t and len(t) < 6000][:(12 if tier == 'thorough' else 4)]
+    with mp.get_context('fork').Pool(min(8, len(texts))) as pool:
+        res = pool.map(_tjob, texts)
+    n_tr = n_states = 0
+    for text, r in zip(texts, res):
+        if r is None or r[0] == 'no-trace':
+            continue
+        if r[0] == 'harness-error':
+            rep.notes.append('trace explanation not observed: ' + r[1][:200])
+            continue
+        _, prog, states, expl, per, targets = r
+        rep.case(('trace', text))
+        n_tr += 1
+        n_states += len(states)
+        sections = []
+        for line in expl.split('\n'):
+            if line.startswith('-- In the '):
+                sections.append((line, []))
+            elif line.strip() and sections:
+                sections[-1][1].append(line)
+        info = dict(text=text, program=prog, states=[(n, a[:8]) for n, a in states][:14], explanation=expl[-1500:])
+        want_h = ['-- In the %d state:' % n for n, _ in states]
+        if [h for h, _ in sections] != want_h:
+            rep.violation('the state headings of the explanation %r are not the states of the trace %r' % ([h for h, _ in sections][:14], want_h[:14]), info)
+            continue
+        for (n, atoms), (_, sents) in zip(states, sections):
+            want = sorted(per[a] for a in atoms if a in per)
+            if sorted(sents) != want:
+                rep.violation('state %d of the trace is not explained by exactly one sentence per atom of a defined concept' % n,
+                              dict(info, state=n, atoms=atoms[:20], sentences=sents[:20], expected=want[:20]))
+                break
+    rep.cov.update(traces_explained=n_tr, trace_states=n_states)
+    rep.evaluations += n_states
+
+
 def run(tier, seed):
     rep = Report(PID, tier, seed)
     proof = common.build_property(PID, extra=['Explain/ExplainCases.vo'])
@@ -212,5 +315,6 @@ def run(tier, seed):
         rep.notes.extend(tie_broken)
     rep.evaluations += st['target_atoms']
     rep.cov.update(st, model_cases=len(cases))
+    traces(rep, tier)
     rep.assumptions += ['clingo enumerates the answer sets (bounded number per program)', 'signature records are read from ClingoResultParser._signatures after _get_new_knowledge()']
     return rep.finish(proof, rule='corpus + wide generator (non-temporal), up to %d answer sets each; every atom of every answer set; distinct by specification' % cap)
